@@ -294,6 +294,38 @@ def _pe(t: T, asg):
     return _UNKNOWN
 
 
+def _pt(t: T, asg) -> T:
+    """Term-level companion of _pe: the term an option-driven selection denotes for one option assignment -- phi arms
+    chosen by their condition, entries of a dict / tuple display chosen by a key that _pe can evaluate (the key may be a
+    tuple of option tests).  Anything else is returned as it is."""
+    for _ in range(16):
+        t0 = strip_wrappers(t)
+        if t0.op in ("phi", "ifexp") and len(t0.args) == 3:
+            v = _eval_cond(t0.args[0], asg)
+            if v is None:
+                return t0
+            t = t0.args[1] if v else t0.args[2]
+            continue
+        if t0.op == "getitem":
+            base = _pt(t0.args[0], asg)
+            key = _pe(t0.args[1], asg)
+            if key is not _UNKNOWN and base.op == "dict":
+                hit = None
+                for k_, v_ in zip(base.args[0::2], base.args[1::2]):
+                    kv = _pe(k_, asg) if isinstance(k_, T) else _UNKNOWN
+                    if kv is not _UNKNOWN and kv == key:
+                        hit = v_
+                if hit is not None:
+                    t = hit
+                    continue
+            if key is not _UNKNOWN and base.op in ("tuple", "list") and isinstance(key, int) and \
+                    -len(base.args) <= key < len(base.args):
+                t = base.args[key]
+                continue
+        return t0
+    return strip_wrappers(t)
+
+
 def _select(t: T, asg) -> Optional[T]:
     while t.op in ("phi", "ifexp") and len(t.args) == 3:
         v = _eval_cond(t.args[0], asg)
@@ -341,6 +373,11 @@ def driver_dispatch(p: Program) -> Tuple[Dict[Tuple[str, bool, bool], Tuple[str,
         body = strip_wrappers(body)
         body = strip_wrappers(_select(body, asg) or body)
         meth = None
+        if body.op == "call" and body.args[0].op not in ("attr",):
+            # the callee is itself selected by the options (a table of bound methods, a helper that returns one)
+            f_ = _pt(body.args[0], asg)
+            if f_.op == "attr":
+                body = mk("call", f_, *body.args[1:])
         if body.op == "call" and body.args[0].op == "attr":
             meth = body.args[0].args[1]
         elif body.op == "call" and body.args[0].op == "call" and func_name(body.args[0]) == "builtins.getattr" and \
